@@ -129,8 +129,63 @@ def intervalAt (cfg : Config) : Nat → Dur
 /-- `getRandomValueFromInterval(0.5, r, cur)` lies in `[cur/2, 3cur/2 + 1]` (bounds doubled to stay in ℤ) -/
 def backoffInRange (cur b : Dur) : Bool := decide (cur - 1 ≤ 2 * b) && decide (2 * b ≤ 3 * cur + 2)
 
-def backoffsOK (cfg : Config) (bs : List Dur) : Bool :=
-  (bs.zipIdx).all (fun (b, i) => backoffInRange (intervalAt cfg i) b)
+/-- the draws `bs` are what `NextBackOff` may return at calls number `i, i+1, …` -/
+def backoffsOKFrom (cfg : Config) : Nat → List Dur → Bool
+  | _, [] => true
+  | i, b :: bs => backoffInRange (intervalAt cfg i) b && backoffsOKFrom cfg (i + 1) bs
+
+def backoffsOK (cfg : Config) (bs : List Dur) : Bool := backoffsOKFrom cfg 0 bs
+
+/-- largest value `NextBackOff` can return under the contract: `1.5·max(InitialInterval, MaxInterval) + 1` -/
+def maxBackoff (cfg : Config) : Dur := (3 * max cfg.initial cfg.maxInterval + 2) / 2
+
+/-- smallest value `NextBackOff` can return when `0 < InitialInterval ≤ MaxInterval`: `InitialInterval / 2` -/
+def minBackoff (cfg : Config) : Dur := cfg.initial / 2
+
+/-! ### the model's own clock
+
+`Timed` = one attempt with the time it takes: `d1` from the start of the attempt to the first clock reading after
+it (the duration of `fn` plus `evaluate`), `d2` from there to the second reading. On the model's clock a wait lasts
+exactly the requested delay, so the readings of a whole script follow from the durations and the draws — whatever
+the loop then decides. -/
+structure Timed where
+  out : Outcome
+  d1 : Dur
+  d2 : Dur
+deriving DecidableEq, Repr
+
+def throttleOfOut : Outcome → Dur
+  | .retryable t => t
+  | _ => 0
+
+/-- clock readings of a script that starts at elapsed time `now` -/
+def timeline (now : Dur) : List Timed → List Dur → List Attempt
+  | [], _ => []
+  | t :: rest, bs =>
+    let e1 := now + t.d1
+    let e2 := e1 + t.d2
+    { out := t.out, e1 := e1, e2 := e2 } ::
+      timeline (e2 + max (throttleOfOut t.out) (bs.headD 0)) rest bs.tail
+
+/-- the model's clock when the call returns (mirrors the control flow of `loopFrom`; readings as in `Attempt`):
+after the attempt for a returned outcome or "elapsed", at the second reading for "would elapse", at the instant
+the context is done (or at once if it already was) for a cancelled wait -/
+def returnTimeFrom (cfg : Config) (cancelAt : Option (Nat × Dur)) : Nat → List Attempt → List Dur → Dur
+  | _, [], _ => 0
+  | k, a :: rest, bs =>
+    match a.out with
+    | .ok _ => a.e1
+    | .fatal => a.e1
+    | .retryable thr =>
+      if cfg.maxElapsed ≠ 0 ∧ a.e1 > cfg.maxElapsed then a.e1
+      else
+        let delay := max thr (bs.headD 0)
+        if cfg.maxElapsed ≠ 0 ∧ a.e2 + thr > cfg.maxElapsed then a.e2
+        else if waitCancelled delay (waitCtx cancelAt k) then a.e2 + max 0 ((waitCtx cancelAt k).getD 0)
+        else
+          match rest with
+          | [] => a.e2 + delay
+          | _ :: _ => returnTimeFrom cfg cancelAt (k + 1) rest bs.tail
 
 /-! ### HTTP classification -/
 
